@@ -160,3 +160,18 @@ package protocol
 //@   ensures complete: forall v uint16 :: v in dmqProtocolVersionsNtN ==> exists i int :: 0 <= i && i < len(versions) && versions[i] == v
 //@   loop 0 invariant forall i int :: 0 <= i && i < len(versions) ==> versions[i] in dmqProtocolVersionsNtN
 //@   loop 0 invariant forall v uint16 :: visited[v] ==> exists i int :: 0 <= i && i < len(versions) && versions[i] == v
+
+// C13: bookkeeping of received-but-unhandled bytes in the read loop. A message is put on the receive
+// queue only after it has been accounted: its length is the last entry of the size list, and - in a
+// state that declares a byte limit - a single message larger than the limit never gets that far and
+// the pending total after admission does not exceed the limit. (The receive loop removes one entry
+// per handled message; see recvLoop.)
+//@ func (p *Protocol) readLoop()
+//@   props C13
+//@   attr safe off
+//@   attr inline 2
+//@   callback send:recvQueueChan requires accounted: len(p.pendingRecvSizes) >= 1 && p.pendingRecvSizes[len(p.pendingRecvSizes)-1] == msgLen && msgLen == len(msgData)
+//@   callback send:recvQueueChan requires bounded: limit > 0 ==> msgLen <= limit && p.pendingRecvBytes <= limit
+//@   callback send:recvQueueChan requires fromcodec: arg0 == msg && msg != nil
+//@   loop 0 invariant true
+//@   loop 1 invariant true
